@@ -2,6 +2,7 @@ import FitModel.Typed
 import FitModel.TypedFactory
 import FitModel.Generated.Mesgdef
 import FitProps.TypedLemmas
+import FitProps.TypedStructLemmas
 import FitProps.TypedNormalLemmas
 /-!
 # C13 — Typed message structs round-trip with protocol messages for every message type
@@ -26,9 +27,19 @@ Formalisation choices (fixed here, see also `typedNormal` / `inRange` in the mod
   meets it outside two classes, `C13_KF_witnesses` / `C13_full_is_false` show it does not inside them (open findings
   KF-C13-1, KF-C13-2; neither class can come out of the decoder with the standard factory). A marked field is dropped by
   ToMesg unless IncludeExpandedFields — that is what the option is for;
-* struct → message → struct: `inRange` — slots hold valid contents or *the* invalid content of their kind
-  (e.g. `typedef.Bool` 0, 1 or 255; a time is `time.Time{}` or a whole second in `[epoch, epoch + 2^32 − 2]`),
-  marks only on eligible slots that are emitted, UnknownFields hold fields that are unknown to the message.
+* struct → message → struct: what comes back is stated for EVERY Go-typed struct (`C13_struct_mesg_struct_norm`,
+  `normStruct`); the classes of structs on which that is not the struct itself are named predicates (`FitModel/Typed.lean`,
+  table in front of `shapeOk`), each decided by running the real code: three are the typed layer's documented
+  normalisation (`hasBoolOther`: a `typedef.Bool` other than 0/1/255 comes back 255; `hasPreEpoch`: a time before the FIT
+  epoch comes back `time.Time{}`; `hasMarkOnInvalid`: the mark of a slot that is not emitted is gone) — `normDoc`; two are
+  outside the property's quantifier (`hasTimeBeyond`: a time the protocol's date_time cannot hold; `¬ unknownsOk`:
+  UnknownFields holding a field the message type defines); one is a defect (`hasStrayBit`: the struct-level face of
+  KF-C13-2). `inRange` is a Go-typed struct in none of them. Sub-second times are outside the property by its own words
+  ("times at whole-second resolution") and outside the model's struct.
+* developer fields, message → struct → message: the property says "the same … developer fields" for every message type, so
+  `typedNormalFull` keeps them. Until /repo 72c2963 the structs of file_id, developer_data_id and field_description had no
+  `DeveloperFields` (class `hasLostDev`, KF-C13-3, reported by this check and repaired); `MesgTable.wf` now demands
+  `hasDev` and `C13_dev_fields_kept` is the clause for every message type (`C13_KF3_fixed_witness`: the pinned old shape).
 -/
 namespace Fit.C13
 open Fit.Typed Fit.Value Fit.Msg Fit.Gen
@@ -36,7 +47,8 @@ open Fit.Typed Fit.Value Fit.Msg Fit.Gen
 /-- Every regenerated per-message table (one per generated file of profile/mesgdef) is well-formed: no field number
 on which Reset panics; slot numbers distinct, read from and emitted under the same number, below the guard; each
 slot's accessor type fits its kind and is aligned with the field's base type; the value a mismatched type reads as,
-and the value ToMesg omits, are the base type's invalid value; eligible numbers lie inside the expanded bitmap. -/
+and the value ToMesg omits, are the base type's invalid value; eligible numbers lie inside the expanded bitmap; the struct has
+`DeveloperFields` (every message type, since /repo 72c2963). -/
 theorem C13_tables_wf : ∀ T ∈ Mesgdef.tables, T.wf = true := by
   decide +kernel
 
@@ -68,12 +80,58 @@ theorem C13_mesg_struct_mesg (T : MesgTable) (hw : T.wf = true) (fac : Nat → F
     (st : Struct) (h : ofMesg T m = .ok st) : toMesg T fac o st = typedNormal T fac o m :=
   toMesg_ofMesg T hw fac o m st h
 
+/-- **Struct → message → struct, what comes back — for EVERY struct** that is a Go value (`wellTyped`: one content of
+the slot's Go type per slot, …) and whose UnknownFields are unknown to the message type: for every well-formed table and
+every factory that knows the message, `NewXxx(&s.ToMesg({Factory, IncludeExpandedFields: true}))` is `normStruct s` —
+every slot as it was, except: a `typedef.Bool` other than 0/1 reads 255, a time before the FIT epoch reads `time.Time{}`,
+a time from epoch + 0xFFFFFFFF s on reads as amd64 converts it (0xFFFFFFFF → `time.Time{}`, later ones modulo 2^32);
+every expanded mark of an eligible slot that is emitted, and no other; UnknownFields and DeveloperFields as they were. -/
+theorem C13_struct_mesg_struct_norm (T : MesgTable) (hw : T.wf = true) (fac : Nat → Field) (hf : facOk T fac = true)
+    (st : Struct) (hty : wellTyped T st = true) (hun : unknownsOk T st = true) :
+    ofMesg T (toMesg T fac { includeExpanded := true } st) = .ok (normStruct T st) :=
+  ofMesg_toMesg_norm T hw fac hf st hty hun
+
+/-- **What the property demands of struct → message → struct**: the struct comes back up to the typed layer's documented
+normalisation `normDoc` (invalid Bool → 255, time before the epoch → `time.Time{}`, the mark of an omitted field dropped),
+for every Go-typed struct whose times the protocol can hold and whose UnknownFields are unknown. It is FALSE of the
+generated code (`C13_struct_full_is_false`): a mark recorded by `Reset` on a non-eligible number is lost (KF-C13-2). -/
+def C13_struct_mesg_struct_full : Prop :=
+  ∀ (T : MesgTable), T.wf = true → ∀ (fac : Nat → Field), facOk T fac = true → ∀ (st : Struct),
+    wellTyped T st = true → unknownsOk T st = true → hasTimeBeyond T st = false →
+    ofMesg T (toMesg T fac { includeExpanded := true } st) = .ok (normDoc T st)
+
+/-- **Struct → message → struct against the documented normal form (partial).** The hypotheses are exactly the classes
+that are NOT normalisations: `hasTimeBeyond` and `¬ unknownsOk` (outside the property's quantifier), `hasStrayBit` (defect,
+KF-C13-2) — besides `wellTyped`, which every Go value satisfies. Inside the three normalising classes (`hasBoolOther`,
+`hasPreEpoch`, `hasMarkOnInvalid`) the theorem applies and says what comes back. -/
+theorem C13_struct_mesg_struct_partial (T : MesgTable) (hw : T.wf = true) (fac : Nat → Field) (hf : facOk T fac = true)
+    (st : Struct) (hty : wellTyped T st = true) (hun : unknownsOk T st = true) (hb : hasTimeBeyond T st = false)
+    (hs : hasStrayBit T st = false) :
+    ofMesg T (toMesg T fac { includeExpanded := true } st) = .ok (normDoc T st) := by
+  rw [ofMesg_toMesg_norm T hw fac hf st hty hun, normStruct_eq_normDoc T st hb hs]
+
 /-- **Struct → message → struct** is the identity: for every well-formed table, every factory that knows the
-message (`facOk`), every struct in range, `NewXxx(&s.ToMesg({Factory, IncludeExpandedFields: true}))` is `s`:
-every slot, every expanded mark, UnknownFields and DeveloperFields. -/
+message (`facOk`), every struct in range (a Go value in none of the seven classes: `C13_inRange_iff`),
+`NewXxx(&s.ToMesg({Factory, IncludeExpandedFields: true}))` is `s`: every slot, every expanded mark, UnknownFields and
+DeveloperFields. -/
 theorem C13_struct_mesg_struct (T : MesgTable) (hw : T.wf = true) (fac : Nat → Field) (hf : facOk T fac = true)
     (st : Struct) (hr : inRange T st = true) : ofMesg T (toMesg T fac { includeExpanded := true } st) = .ok st :=
   ofMesg_toMesg T hw fac hf st hr
+
+/-- `inRange` is exactly: a Go value, UnknownFields unknown, and none of the five named classes -/
+theorem C13_inRange_iff (T : MesgTable) (st : Struct) :
+    inRange T st = true ↔ (wellTyped T st = true ∧ unknownsOk T st = true ∧ hasBoolOther T st = false ∧
+      hasPreEpoch T st = false ∧ hasTimeBeyond T st = false ∧ hasMarkOnInvalid T st = false ∧ hasStrayBit T st = false) := by
+  simp only [inRange, Bool.and_eq_true, Bool.not_eq_true']
+  constructor
+  · rintro ⟨⟨⟨⟨⟨⟨a, b⟩, c⟩, d⟩, e⟩, f⟩, g⟩; exact ⟨a, b, c, d, e, f, g⟩
+  · rintro ⟨a, b, c, d, e, f, g⟩; exact ⟨⟨⟨⟨⟨⟨a, b⟩, c⟩, d⟩, e⟩, f⟩, g⟩
+
+/-- the documented normal form is the struct itself outside the three normalising classes -/
+theorem C13_normDoc_fixes (T : MesgTable) (hw : T.wf = true) (st : Struct) (hty : wellTyped T st = true)
+    (h1 : hasBoolOther T st = false) (h2 : hasPreEpoch T st = false) (h3 : hasMarkOnInvalid T st = false) :
+    normDoc T st = st :=
+  normDoc_eq_self T hw st hty h1 h2 h3
 
 /-- **No panic.** For every well-formed table, `NewXxx(&m)` does not panic on any message whose fields have a
 FieldBase — whatever the field numbers (0..255, known to the message or not), names, value types, duplicates and
@@ -223,8 +281,9 @@ theorem C13_spec_valid_fixed_arrays (s : Slot) (n : Nat) (hk : s.kind = .fixed n
   rw [this]
 
 /-- **What the property demands** (`typedNormalFull`: every field the struct has no slot for is kept with the unknown
-fields; the expanded mark of every known field is kept) — the full statement of message → struct → message. It is FALSE
-of the generated code: `C13_KF_witnesses`, known findings KF-C13-1 and KF-C13-2. -/
+fields; the expanded mark of every known field is kept; developer fields are kept for every message type) — the full
+statement of message → struct → message. It is FALSE of the generated code: `C13_KF_witnesses`, known findings KF-C13-1
+and KF-C13-2 (KF-C13-3, the developer fields of three message types, is repaired). -/
 def C13_mesg_struct_mesg_full : Prop :=
   ∀ (T : MesgTable), T.wf = true → ∀ (fac : Nat → Field) (o : Options) (m : Message) (st : Struct),
     ofMesg T m = .ok st → toMesg T fac o st = typedNormalFull T fac o m
@@ -233,18 +292,33 @@ def C13_mesg_struct_mesg_full : Prop :=
 field with a name and a number below the struct's bound that the message type does not define (`hasForeign`, KF-C13-1),
 no expanded mark on a known field that is not a component target (`hasStrayMark`, KF-C13-2) — the code returns exactly
 what the property demands. Both hypotheses hold of every message the decoder produces with the standard factory
-(named ⇔ defined by the profile; marks only on component targets: `C17_mesgdef_matches_xlsx`). -/
+(named ⇔ defined by the profile; marks only on component targets: `C17_mesgdef_matches_xlsx`). The third class of the
+tree before /repo 72c2963 (`hasLostDev`, KF-C13-3: developer fields on a message whose struct has no `DeveloperFields`) is
+empty for every well-formed table: `T.wf` now demands `T.hasDev`, kernel-checked on the 119 regenerated tables
+(`C13_tables_wf`), so "the same developer fields" holds for EVERY message type. -/
 theorem C13_mesg_struct_mesg_partial (T : MesgTable) (hw : T.wf = true) (fac : Nat → Field) (o : Options) (m : Message)
     (st : Struct) (h : ofMesg T m = .ok st) (h1 : hasForeign T m = false) (h2 : hasStrayMark T m = false) :
     toMesg T fac o st = typedNormalFull T fac o m := by
-  rw [typedNormalFull_eq T fac o m h1 h2]; exact toMesg_ofMesg T hw fac o m st h
+  have h3 : hasLostDev T m = false := by simp [hasLostDev, wf_hasDev T hw]
+  rw [typedNormalFull_eq T fac o m h1 h2 h3]; exact toMesg_ofMesg T hw fac o m st h
+
+/-- **Developer fields are kept for every message type** (the clause that failed for file_id, developer_data_id and
+field_description before /repo 72c2963): for every well-formed table and every message on which `NewXxx` does not
+panic, the developer fields of `NewXxx(&m).ToMesg(o)` are those of `m`, unchanged and in order. -/
+theorem C13_dev_fields_kept (T : MesgTable) (hw : T.wf = true) (fac : Nat → Field) (o : Options) (m : Message)
+    (st : Struct) (h : ofMesg T m = .ok st) : (toMesg T fac o st).devFields = m.devFields := by
+  rw [toMesg_ofMesg T hw fac o m st h]
+  simp [typedNormal, wf_hasDev T hw]
 
 /-- a pinned literal table shaped like today's file_id struct (one slot — `type`, number 0 — bound `Num > 8`), so that
-the witnesses keep checking whatever happens to /repo -/
+the witnesses keep checking whatever happens to /repo; `pinnedFileIdNoDev` is the same struct as it was before /repo
+72c2963 (no `DeveloperFields`): not well-formed any more -/
 def pinnedFileId : MesgTable :=
-  { name := 0, num := 0, guard := 9, panics := [], markBound := 0, hasDev := false
+  { name := 0, num := 0, guard := 9, panics := [], markBound := 0, hasDev := true
     slots := [{ num := 0, readNum := 0, kind := .scalar, ptype := typeUint8, dflt := .uint8 255, sentinel := .uint8 255,
                 canExpand := false, baseType := btEnum }] }
+
+def pinnedFileIdNoDev : MesgTable := { pinnedFileId with hasDev := false }
 
 def pinnedFac (num : Nat) : Field :=
   { base := some { num := num, baseType := btEnum, nameKnown := true }, value := .invalid }
@@ -259,6 +333,11 @@ def kf1Mesg : Message :=
 def kf2Mesg : Message :=
   { num := 0, devFields := []
     fields := [{ base := some { num := 0, baseType := btEnum, nameKnown := true }, value := .uint8 4, isExpanded := true }] }
+
+/-- KF-C13-3: file_id (a struct without `DeveloperFields`) carrying a developer field -/
+def kf3Mesg : Message :=
+  { num := 0, devFields := [{ devIdx := 0, num := 1, value := .uint8 3 }]
+    fields := [{ base := some { num := 0, baseType := btEnum, nameKnown := true }, value := .uint8 4 }] }
 
 def roundTrip (T : MesgTable) (fac : Nat → Field) (o : Options) (m : Message) : Option Message :=
   match ofMesg T m with
@@ -286,6 +365,21 @@ theorem C13_KF_witnesses :
     hasForeign pinnedFileId kf1Mesg = true ∧ hasStrayMark pinnedFileId kf2Mesg = true := by
   decide
 
+/-- **KF-C13-3 (fixed in /repo 72c2963), kept as a pinned witness**: on a table shaped like the file_id struct BEFORE the
+repair (no `DeveloperFields`) the developer field of a file_id message is gone after the round trip, the property's
+normal form keeps it; such a table is no longer well-formed (a generated file that drops developer fields again breaks
+`C13_tables_wf`), and on the table with `DeveloperFields` the round trip is what the property demands. -/
+theorem C13_KF3_fixed_witness :
+    roundTrip pinnedFileIdNoDev pinnedFac { includeExpanded := true } kf3Mesg ≠
+      some (typedNormalFull pinnedFileIdNoDev pinnedFac { includeExpanded := true } kf3Mesg) ∧
+    (roundTrip pinnedFileIdNoDev pinnedFac { includeExpanded := true } kf3Mesg).map (·.devFields.length) = some 0 ∧
+    (typedNormalFull pinnedFileIdNoDev pinnedFac { includeExpanded := true } kf3Mesg).devFields.length = 1 ∧
+    hasLostDev pinnedFileIdNoDev kf3Mesg = true ∧ hasForeign pinnedFileIdNoDev kf3Mesg = false ∧
+    hasStrayMark pinnedFileIdNoDev kf3Mesg = false ∧ pinnedFileIdNoDev.wf = false ∧
+    roundTrip pinnedFileId pinnedFac { includeExpanded := true } kf3Mesg =
+      some (typedNormalFull pinnedFileId pinnedFac { includeExpanded := true } kf3Mesg) := by
+  decide
+
 /-- hence the full statement is false -/
 theorem C13_full_is_false : ¬ C13_mesg_struct_mesg_full := by
   intro h
@@ -299,11 +393,93 @@ theorem C13_full_is_false : ¬ C13_mesg_struct_mesg_full := by
     simp only [roundTrip, hst, this]
 
 /-- non-vacuity of the hypotheses of `C13_mesg_struct_mesg_partial`: the example message of this file is in neither class -/
-example : hasForeign Mesgdef.tRecord exMesg = false ∧ hasStrayMark Mesgdef.tRecord exMesg = false := by
+example : hasForeign Mesgdef.tRecord exMesg = false ∧ hasStrayMark Mesgdef.tRecord exMesg = false ∧
+    hasLostDev Mesgdef.tRecord exMesg = false ∧ exMesg.devFields ≠ [] := by
   decide +kernel
 
 /-- non-vacuity of `C13_spec_valid_fixed_arrays`: record.compressed_speed_distance is a `[3]byte` slot of a regenerated table -/
 example : ∃ s ∈ Mesgdef.tRecord.slots, s.kind = .fixed 3 ∧ s.wf = true := by
+  decide +kernel
+
+/-! ### struct → message → struct: the classes are inhabited, and what comes back in each -/
+
+/-- a pinned literal table shaped like a small record: a time (253), a scalar that is not a component target (3), a
+scalar that is one (5), a `typedef.Bool` (6); bitmap bound 8 -/
+def pinnedRec : MesgTable :=
+  { name := 0, num := 20, guard := 254, panics := [], markBound := 8, hasDev := true
+    slots := [
+      { num := 253, readNum := 253, kind := .time, ptype := typeUint32, dflt := .invalid, sentinel := .invalid, canExpand := false, baseType := btUint32 },
+      { num := 3, readNum := 3, kind := .scalar, ptype := typeUint8, dflt := .uint8 255, sentinel := .uint8 255, canExpand := false, baseType := btUint8 },
+      { num := 5, readNum := 5, kind := .scalar, ptype := typeUint32, dflt := .uint32 4294967295, sentinel := .uint32 4294967295, canExpand := true, baseType := btUint32 },
+      { num := 6, readNum := 6, kind := .bool, ptype := typeBool, dflt := .bool 255, sentinel := .invalid, canExpand := false, baseType := btEnum }] }
+
+def backOf (st : Struct) : Typed.Outcome Struct := ofMesg pinnedRec (toMesg pinnedRec pinnedFac { includeExpanded := true } st)
+
+/-- a struct in the three NORMALISING classes at once: time one second before the epoch, Bool 7, a mark on slot 5 whose
+content is invalid -/
+def stNorm : Struct :=
+  { vals := [.time (-1), .val (.uint8 70), .val (.uint32 4294967295), .val (.bool 7)], state := 1 <<< 5, unknown := [], dev := [] }
+
+/-- a struct in the class of KF-C13-2: bit 3 (heart_rate-like, not a component target) set — as `Reset` leaves it after a
+message whose field 3 was flagged as expanded -/
+def stStray : Struct :=
+  { vals := [.time 1000, .val (.uint8 70), .val (.uint32 9), .val (.bool 1)], state := (1 <<< 5) ||| (1 <<< 3), unknown := [], dev := [] }
+
+def strayMesg : Message :=
+  { num := 20, devFields := []
+    fields := [{ base := some { num := 253, baseType := btUint32, nameKnown := true }, value := .uint32 1000 },
+               { base := some { num := 3, baseType := btUint8, nameKnown := true }, value := .uint8 70, isExpanded := true },
+               { base := some { num := 5, baseType := btUint32, nameKnown := true }, value := .uint32 9, isExpanded := true },
+               { base := some { num := 6, baseType := btEnum, nameKnown := true }, value := .bool 1 }] }
+
+def stBeyond (t : Int) : Struct :=
+  { vals := [.time t, .val (.uint8 70), .val (.uint32 9), .val (.bool 1)], state := 0, unknown := [], dev := [] }
+
+/-- **The classes, on a pinned table** (each line: the struct is a Go value in exactly the class named, and what comes back):
+normalising classes — the pre-epoch time comes back `time.Time{}`, Bool 7 comes back 255, the mark on the invalid slot is
+gone, and that is `normDoc`; class of KF-C13-2 — the struct `Reset` builds from a message whose field 3 is flagged keeps
+bit 3, and the round trip loses it (`normDoc` keeps it); times beyond the protocol's range — epoch + 0xFFFFFFFF s comes
+back `time.Time{}`, epoch + 2^32 + 5 s comes back epoch + 5 s, a time beyond the saturation of `time.Duration` comes back
+epoch + 633437444 s. -/
+theorem C13_struct_class_witnesses :
+    pinnedRec.wf = true ∧ facOk pinnedRec pinnedFac = true ∧
+    wellTyped pinnedRec stNorm = true ∧ hasBoolOther pinnedRec stNorm = true ∧ hasPreEpoch pinnedRec stNorm = true ∧
+    hasMarkOnInvalid pinnedRec stNorm = true ∧ hasStrayBit pinnedRec stNorm = false ∧ hasTimeBeyond pinnedRec stNorm = false ∧
+    backOf stNorm = .ok { vals := [.time zeroTime, .val (.uint8 70), .val (.uint32 4294967295), .val (.bool 255)], state := 0, unknown := [], dev := [] } ∧
+    backOf stNorm = .ok (normDoc pinnedRec stNorm) ∧
+    ofMesg pinnedRec strayMesg = .ok stStray ∧
+    wellTyped pinnedRec stStray = true ∧ hasStrayBit pinnedRec stStray = true ∧ hasBoolOther pinnedRec stStray = false ∧
+    hasPreEpoch pinnedRec stStray = false ∧ hasMarkOnInvalid pinnedRec stStray = false ∧ hasTimeBeyond pinnedRec stStray = false ∧
+    backOf stStray = .ok { stStray with state := 1 <<< 5 } ∧ normDoc pinnedRec stStray = stStray ∧
+    hasTimeBeyond pinnedRec (stBeyond (2 ^ 32 - 1)) = true ∧ backOf (stBeyond (2 ^ 32 - 1)) = .ok (stBeyond zeroTime) ∧
+    backOf (stBeyond (2 ^ 32 + 5)) = .ok (stBeyond 5) ∧ backOf (stBeyond (10 ^ 10)) = .ok (stBeyond 633437444) ∧
+    hasTimeBeyond pinnedRec (stBeyond (2 ^ 32 - 2)) = false ∧ inRange pinnedRec (stBeyond (2 ^ 32 - 2)) = true := by
+  decide +kernel
+
+/-- hence the full statement of struct → message → struct is false of the generated code (KF-C13-2, struct level) -/
+theorem C13_struct_full_is_false : ¬ C13_struct_mesg_struct_full := by
+  intro h
+  have w := C13_struct_class_witnesses
+  have hun : unknownsOk pinnedRec stStray = true := by decide
+  have := h pinnedRec w.1 pinnedFac w.2.1 stStray w.2.2.2.2.2.2.2.2.2.2.2.1 hun w.2.2.2.2.2.2.2.2.2.2.2.2.2.2.2.2.1
+  have hb : backOf stStray = .ok { stStray with state := 1 <<< 5 } := w.2.2.2.2.2.2.2.2.2.2.2.2.2.2.2.2.2.1
+  have hn : normDoc pinnedRec stStray = stStray := w.2.2.2.2.2.2.2.2.2.2.2.2.2.2.2.2.2.2.1
+  unfold backOf at hb
+  rw [hb, hn] at this
+  revert this
+  decide
+
+/-- non-vacuity of `C13_struct_mesg_struct_norm` / `_partial` on a regenerated table: the struct built from the example
+message with one of its `typedef.Bool`-free slots… (record has no Bool slot: a pre-epoch timestamp and a mark on an invalid
+slot) is a Go value, in no non-normalising class, and NOT in range -/
+def exStructNorm : Struct :=
+  match markAsExpanded Mesgdef.tRecord { exStruct with vals := exStruct.vals.set 0 (.time (-1)) } 73 true with
+  | (st, _) => st
+
+example : wellTyped Mesgdef.tRecord exStructNorm = true ∧ unknownsOk Mesgdef.tRecord exStructNorm = true ∧
+    hasTimeBeyond Mesgdef.tRecord exStructNorm = false ∧ hasStrayBit Mesgdef.tRecord exStructNorm = false ∧
+    hasPreEpoch Mesgdef.tRecord exStructNorm = true ∧ hasMarkOnInvalid Mesgdef.tRecord exStructNorm = true ∧
+    inRange Mesgdef.tRecord exStructNorm = false ∧ normDoc Mesgdef.tRecord exStructNorm ≠ exStructNorm := by
   decide +kernel
 
 end Fit.C13
